@@ -626,8 +626,11 @@ BAD = {"c0ctl": ["\x01", "\x00", "\x08", "\x0b", "\x0c", "\x1f"],
 
 
 class Gen:
-    def __init__(self, rng):
+    def __init__(self, rng, clean_ns=False):
         self.r = rng
+        # clean_ns: namespaces of generated paths never contain delimiters
+        # (they may become the target namespace of a request)
+        self.clean_ns = clean_ns
 
     def text(self, maxlen=6):
         r = self.r
@@ -642,7 +645,8 @@ class Gen:
 
     def ns(self):
         r = self.r
-        return "/".join(self.name(0.05) for _ in range(1 + r.randrange(3)))
+        odd = 0 if self.clean_ns else 0.05
+        return "/".join(self.name(odd) for _ in range(1 + r.randrange(3)))
 
     def scalar(self, ty):
         r = self.r
@@ -976,13 +980,15 @@ class Gen:
             elif k == "plist":
                 v = self.plist()
             elif k == "cn":
-                v = r.choice([tname["cls"],
-                              CIMClassName(tname["cls"]),
-                              CIMClassName(tname["cls"],
-                                           namespace=tname["ns"]),
-                              CIMClassName(tname["cls"], host=self.host(),
-                                           namespace=tname["ns"])]) \
-                    if p["r"] else self.optcn()
+                # ClassName may carry the target namespace; the other class
+                # names (AssocClass, ...) are plain values
+                cn = tname["cls"] if n == "ClassName" else self.name()
+                v = r.choice([cn, CIMClassName(cn),
+                              CIMClassName(cn, namespace=tname["ns"]),
+                              CIMClassName(cn, host=self.host(),
+                                           namespace=tname["ns"])])
+                if not p["r"] and r.random() < 0.4:
+                    v = None
             elif k in ("in", "on"):
                 form = r.randrange(5 if k == "on" else 3)
                 if form >= 3:
@@ -1267,8 +1273,14 @@ def header_emulation_check(ctx):
     """The adapter sees header values as str; on the wire http.client sends
     them latin-1 encoded.  Confirm on a real loopback socket that the
     emulation in wirecap.header_wire_bytes is what really goes out."""
-    srv = socket.socket()
-    srv.bind(("127.0.0.1", 0))
+    try:
+        srv = socket.socket()
+        srv.bind(("127.0.0.1", 0))
+    except OSError as exc:
+        ctx.assumptions.append(
+            "no loopback socket available (%s): header bytes are the latin-1 "
+            "emulation of http.client.putheader only" % exc)
+        return
     srv.listen(4)
     srv.settimeout(10)
     port = srv.getsockname()[1]
@@ -1491,7 +1503,7 @@ def build_doc(table, optable, seed, recipe):
             return make_event(table, "obj", "CIMQualifierDeclaration", s), \
                 s, repr(o)
         if d == "call":
-            g = Gen(rng)
+            g = Gen(rng, clean_ns=True)
             tn = target_names(rng, recipe["hclass"])
             op = recipe["op"]
             try:
@@ -1620,8 +1632,7 @@ def run(ctx):
     t0 = time.time()
     table, lx = check_table(ctx)
     header_emulation_check(ctx)
-    if not os.environ.get("C03_DEV"):
-        model_checks(ctx)
+    model_checks(ctx)
     cases, optable = enumerate_cases(ctx)
     check_signatures(ctx, optable)
     t_mc = time.time() - t0
@@ -1635,8 +1646,15 @@ def run(ctx):
         raws.append(raw)
         descs.append(desc)
     g = Gen(doc_rng(ctx.seed, "loopback", 0))
-    for ev, raw, rc in loopback_listener_docs(
-            ctx, table, g, 12 if ctx.tier == "thorough" else 4):
+    import contextlib
+    import logging
+    logging.getLogger("pywbem").setLevel(logging.CRITICAL)
+    with open(os.devnull, "w") as devnull, \
+            contextlib.redirect_stderr(devnull):
+        # (socketserver prints the traceback of a crashing handler thread)
+        lb = loopback_listener_docs(
+            ctx, table, g, 12 if ctx.tier == "thorough" else 4)
+    for ev, raw, rc in lb:
         recipes.append(rc)
         events.append(ev)
         raws.append(raw)
@@ -1774,8 +1792,12 @@ def replay(rep):
     ev, raw, desc = build_doc(table, optable, rep.get("seed", 0),
                               case["recipe"])
     print("replaying %s" % desc[:400])
-    print("document: %r" % (raw if raw is None else raw[:800]))
-    print("headers:  %r" % ev["hdr"])
+    if isinstance(raw, tuple):
+        print("headers on the wire: %r" % (
+            {k: v for k, v in raw[1].items() if k.lower().startswith("cim")},))
+        raw = raw[0]
+    print("document: %r" % ((raw if raw is None else raw[:800]),))
+    print("decoded headers: %r" % (ev["hdr"],))
     v = ctx.validate_traces("WireOpsTrace", "WireOpsTrace.cfg", [[ev]])[0]
     print("verdict:", v)
     if not v["ok"]:
